@@ -411,6 +411,14 @@ class OrderingList(List[_T]):
         super().__delitem__(index)
         self._reorder()
 
+    def sort(self, *, key: Any = None, reverse: bool = False) -> None:
+        super().sort(key=key, reverse=reverse)
+        self._reorder()
+
+    def reverse(self) -> None:
+        super().reverse()
+        self._reorder()
+
     def __reduce__(self) -> Any:
         return _reconstitute, (self.__class__, self.__dict__, list(self))
 
